@@ -162,6 +162,103 @@ class Intersect:
         return {"name": name}
 
 
+CURVES = {
+    "qa": [(0, 0), (2, 3), (4, 0)],
+    "qb": [(0, 2), (2, -2), (4, 2)],
+    "ca": [(0, 0), (1, 3), (3, -3), (4, 0)],
+    "la": [(0, 1), (4, 1)],
+}
+
+
+class FilterStage:
+    """the two filters applied to the output of the curved crossing search (whose Newton iteration is outside the
+    encodable fragment: its output is *havocked* into arbitrary parameter pairs): filter_distance keeps a pair only if
+    the two curve points are within the tolerance, filter_parameters drops a pair only if it is within the tolerance of
+    an earlier one; concrete curves, symbolic pairs (u, v), (u2, v2)"""
+
+    nfree = 0
+    max_degree = 6
+    ob_timeout_ms = 20000
+
+    def __init__(self, A, B):
+        self.A, self.B = A, B
+        self.names = ["u", "v", "u2", "v2"]
+
+    def domain(self, xs):
+        cs = []
+        for x in xs:
+            cs += [x >= 0, x <= 1]
+        return cs
+
+    def seed(self):
+        return [F(1, 3), F(2, 5), F(3, 4), F(1, 7)]
+
+    def curves(self):
+        from shapepy import PlanarCurve
+
+        return PlanarCurve(CURVES[self.A]), PlanarCurve(CURVES[self.B])
+
+    def run(self, xs):
+        from shapepy.curve import Intersection
+
+        ca, cb = self.curves()
+        pairs = [(xs[0], xs[1]), (xs[2], xs[3])]
+        kept_d = Intersection.filter_distance(ca, cb, pairs, 1e-6)
+        kept_p = Intersection.filter_parameters(pairs, 1e-6)
+        return {"kept_d": [bool(any(p is q for q in kept_d)) for p in pairs], "n_d": len(kept_d), "kept_p": [bool(any(p is q for q in kept_p)) for p in pairs], "n_p": len(kept_p)}
+
+    def dist2(self, u, v):
+        from oracles import bezier as BZ
+
+        a, b = CURVES[self.A], CURVES[self.B]
+        dx = BZ.bernstein([F(p[0]) for p in a], u) - BZ.bernstein([F(p[0]) for p in b], v)
+        dy = BZ.bernstein([F(p[1]) for p in a], u) - BZ.bernstein([F(p[1]) for p in b], v)
+        return dx * dx + dy * dy
+
+    def oblige(self, tr, out):
+        T, Fl = z3.BoolVal(True), z3.BoolVal(False)
+        u, v, u2, v2 = [Sym.var(i, 0) for i in range(4)]
+        hi, lo = (F(1, 10**6) * F(1001, 1000)) ** 2, (F(1, 10**6) * F(999, 1000)) ** 2
+        bad = []
+        for kept, (a, b) in zip(out["kept_d"], ((u, v), (u2, v2))):
+            d2 = self.dist2(a, b)
+            bad.append(R.zb(d2 >= hi) if kept else R.zb(d2 < lo))
+        obs = [("filter_distance keeps a pair farther apart than the tolerance or drops a pair within it", z3.Or(bad), {}),
+               ("filter_distance changed the number of pairs inconsistently", Fl if out["n_d"] == sum(out["kept_d"]) else T, {})]
+        pd2 = (u - u2) * (u - u2) + (v - v2) * (v - v2)
+        tol2 = F(1e-6) ** 2
+        badp = [z3.BoolVal(not out["kept_p"][0])]
+        badp.append(R.zb(pd2 < tol2) if out["kept_p"][1] else R.zb(pd2 >= tol2))
+        obs.append(("filter_parameters drops a distinct pair or keeps a duplicate", z3.Or(badp), {}))
+        return obs
+
+    def on_raise(self, exc, func, line):
+        return "filter raised " + exc
+
+    def confirm(self, name, xs, outcome, exc):
+        desc = f"curves {self.A}, {self.B}, pairs ({xs[0]}, {xs[1]}), ({xs[2]}, {xs[3]})"
+        if name.startswith("filter raised"):
+            return exc is not None, desc + f": {exc}"
+        if outcome is None:
+            return False, str(exc)
+        hi, lo = (F(1, 10**6) * F(1001, 1000)) ** 2, (F(1, 10**6) * F(999, 1000)) ** 2
+        if name.startswith("filter_distance keeps"):
+            for kept, (a, b) in zip(outcome["kept_d"], ((xs[0], xs[1]), (xs[2], xs[3]))):
+                d2 = self.dist2(a, b)
+                if (kept and d2 >= hi) or (not kept and d2 < lo):
+                    return True, desc + f": kept={kept}, squared distance {float(d2)}"
+            return False, desc
+        if name.startswith("filter_distance changed"):
+            return outcome["n_d"] != sum(outcome["kept_d"]), desc
+        pd2 = (xs[0] - xs[2]) ** 2 + (xs[1] - xs[3]) ** 2
+        tol2 = F(1e-6) ** 2
+        bad = (not outcome["kept_p"][0]) or (outcome["kept_p"][1] and pd2 < tol2) or (not outcome["kept_p"][1] and pd2 >= tol2)
+        return bad, desc + f": kept {outcome['kept_p']}, squared parameter distance {float(pd2)}"
+
+    def signature(self, name, xs, outcome, exc):
+        return {"name": name}
+
+
 def sorted_key(entries):
     def k(e):
         return (e[0], e[1], val(e[2]) if e[2] is not None else F(-1), val(e[3]) if e[3] is not None else F(-1))
@@ -200,6 +297,8 @@ def specs(tier):
     pairs = PAIRS_QUICK if tier == "quick" else PAIRS_THOROUGH
     out = [dict(module="checks.c14", scenario="Intersect", params=dict(A=a, B=b)) for a, b in pairs]
     out += [dict(module="checks.c14", scenario="Intersect", params=dict(A=a, B=b, premove=True)) for a, b in pairs[:2 if tier == "quick" else len(pairs)]]
+    for a, b in [("qa", "qb"), ("ca", "la")] + ([("qa", "ca"), ("ca", "qb")] if tier != "quick" else []):
+        out.append(dict(module="checks.c14", scenario="FilterStage", params=dict(A=a, B=b), time_budget=60 if tier == "quick" else 900))
     if tier != "quick":
         out += [dict(module="checks.c14", scenario="Intersect", params=dict(A=a, B=b, direction=(1, 2))) for a, b in pairs]
         out += [dict(module="checks.c14", scenario="Intersect", params=dict(A=a, B=b, direction=(1, 0))) for a, b in pairs]
